@@ -1,0 +1,70 @@
+//go:build verif
+
+package ntske
+
+import "time"
+
+var _ time.Time // lemmas below name package time
+
+// Contracts for the verification machinery in /verif (comment-only; not compiled without the tag "verif").
+
+//@ func (*Key).IsValidAt
+//@   requires k != nil
+//@   ensures def: result == (!t.Before(k.Validity.NotBefore) && !t.After(k.Validity.NotAfter))
+
+// Representation invariant of the provider (holds whenever p.mu is not held): the current key is
+// present and was generated at generatedAt; every stored key is filed under its own id, has an id not
+// above currentID, and is valid for exactly keyValidity (72 h = 259200000000000 ns) from its NotBefore.
+//@ pred validAt(k, t) = !t.Before(k.Validity.NotBefore) && !t.After(k.Validity.NotAfter)
+//@ pred keyOK(p, q) = p.keys[q].ID == q && q <= p.currentID && p.keys[q].Validity.NotAfter == p.keys[q].Validity.NotBefore.Add(259200000000000)
+//@ pred providerOK(p) = p != nil && p.keys != nil && inmap(p.keys, p.currentID) && p.keys[p.currentID].Validity.NotBefore == p.generatedAt && all(q, inmap(p.keys, q) ==> keyOK(p, q))
+
+//@ func (*Provider).generateNext
+//@   clock
+//@   requires p != nil && p.keys != nil
+//@   requires all(q, inmap(p.keys, q) ==> keyOK(p, q))
+//@   panics when p.currentID == 9223372036854775807
+//@   modifies p.currentID, p.generatedAt, p.keys
+//@   allocates
+//@   loop 0 invariant p.currentID == before(p.currentID) && refof(p.keys) == before(refof(p.keys))
+//@   loop 0 invariant all(q, inmap(p.keys, q) ==> before(inmap(p.keys, q)) && same(p.keys[q], before(p.keys[q])))
+//@   loop 0 invariant all(q, before(inmap(p.keys, q)) && !inmap(p.keys, q) ==> !validAt(before(p.keys[q]), tNow))
+//@   loop 0 invariant all(q, visited(q) && inmap(p.keys, q) ==> validAt(p.keys[q], tNow))
+//@   ensures freshid: p.currentID == old(p.currentID)+1
+//@   ensures ok: providerOK(p)
+//@   ensures now: p.generatedAt == lastnow()
+//@   ensures retire: all(q, q != p.currentID ==> (inmap(p.keys, q) == (old(inmap(p.keys, q)) && validAt(old(p.keys[q]), lastnow()))))
+//@   ensures kept: all(q, q != p.currentID && inmap(p.keys, q) ==> same(p.keys[q], old(p.keys[q])))
+
+//@ func NewProvider
+//@   clock
+//@   allocates
+//@   ensures ok: providerOK(result) && fresh(result)
+
+//@ func (*Provider).Get
+//@   clock
+//@   requires providerOK(p)
+//@   modifies p.mu
+//@   ensures ok: providerOK(p)
+//@   ensures found: result1 ==> result0.ID == id && old(inmap(p.keys, id)) && same(result0, old(p.keys[id])) && validAt(result0, lastnow())
+//@   ensures absent: !result1 ==> !old(inmap(p.keys, id)) || !validAt(old(p.keys[id]), lastnow())
+//@   ensures frame: p.currentID == old(p.currentID) && p.generatedAt == old(p.generatedAt)
+
+//@ func (*Provider).Current
+//@   clock
+//@   requires providerOK(p) && p.currentID < 9223372036854775807
+//@   modifies p.mu, p.currentID, p.generatedAt, p.keys
+//@   allocates
+//@   ensures ok: providerOK(p)
+//@   ensures current: same(result, p.keys[p.currentID]) && result.ID == p.currentID
+//@   ensures valid: validAt(result, lastnow())
+//@   ensures recent: !p.generatedAt.Add(86400000000000).Before(lastnow())
+//@   ensures ids: p.currentID >= old(p.currentID)
+
+// Lifetime: a key handed out by Current at time ti (valid at ti, generated at most 24 h before ti, valid for
+// 72 h) is still within its validity at every t in [ti, ti+48h], and never after generation+72h.
+//@ lemma cookieLifetime(gen time.Time, ti time.Time, t time.Time)
+//@   requires 0 <= gen.Unix() && gen.Unix() <= 1099511627776 && 0 <= ti.Unix() && ti.Unix() <= 1099511627776 && 0 <= t.Unix() && t.Unix() <= 1099511627776
+//@   requires !ti.Before(gen) && !gen.Add(86400000000000).Before(ti)
+//@   requires !t.Before(ti) && !t.After(ti.Add(172800000000000))
+//@   ensures !t.Before(gen) && !t.After(gen.Add(259200000000000))
